@@ -1278,3 +1278,11 @@ mut("grown_inputs_adopted_without_parents", ["C10", "C09"], "PAIR-14", patch="gr
 mut("seek_charge_applied_to_fresh_version", ["C07", "C01"], "PAIR-15", patch="seek_charge_applied_to_fresh_version.diff")
 mut("shutdown_shortened_merge_installed", ["C07", "C01"], "ORD-3c", patch="shutdown_shortened_merge_installed.diff",
     note="a merge loop stopped by shutdown before any output was opened is installed: all inputs are deleted")
+
+# ---- round 4 wave 3
+mut("table_block_written_with_write", ["C13"], "GRD-18", patch="table_block_written_with_write.diff", note="a short write shifts every later block handle")
+mut("filter_policy_error_fails_closed_two_sites", ["C14", "C13"], "GRD-8", patch="filter_policy_error_fails_closed_two_sites.diff")
+mut("filter_index_offset_truncated", ["C14", "C13"], "GRD-8", patch="filter_index_offset_truncated.diff", note="block offsets >= 4 GiB probe the wrong filter")
+mut("wal_reuse_when_eof_or_consumed", ["C12", "C16", "C02"], "GRD-12", patch="wal_reuse_when_eof_or_consumed.diff")
+mut("gc_after_scheduled_flag_cleared", ["C17", "C09"], "ORD-10", patch="gc_after_scheduled_flag_cleared.diff",
+    note="Drop sees the flag cleared and releases LOCK while the old instance is still unlinking files")
